@@ -219,7 +219,8 @@ def audit(ctx: Ctx):
     os.makedirs(os.path.join(LEAN, ".audit"), exist_ok=True)
     path = os.path.join(LEAN, ".audit", f"{ctx.pid}.lean")
     with open(path, "w") as f:
-        f.write(f"import {mod.LEAN_MODULE}\n" + "".join(f"#print axioms {n}\n" for n in names))
+        extra = "".join(f"import {m}\n" for m in getattr(mod, "EXTRA_LEAN_MODULES", []) if m.startswith("NiVerif.Props."))
+        f.write(f"import {mod.LEAN_MODULE}\n" + extra + "".join(f"#print axioms {n}\n" for n in names))
     rc, out, err = sh(["lake", "env", "lean", path], cwd=LEAN, timeout=1200)
     text = out + err
     for n in names:
